@@ -1,6 +1,6 @@
 (* C11 - Exhaustive search evaluates each reveal set once, correctly; finds the optimum.
    Statements only; proofs in theories/SearchProofs.v (and CombsProofs.v for itertools.combinations). *)
-From ICG Require Import Prelude Bits Table Bounds GameOps SAKnowledge Shapley Exploit Norms Env Combs CombsProofs Search SearchProofs SASound SAMSpec SearchMono.
+From ICG Require Import Prelude Bits Table Bounds GameOps SAKnowledge Shapley Exploit Norms Env Combs CombsProofs Search SearchProofs SASound SAMSpec SearchMono SearchCurve.
 
 (* the enumeration: every set of at most m still-unknown coalitions exactly once, by increasing size *)
 Theorem C11_sequences :
@@ -83,6 +83,22 @@ Print Assumptions C11_value_monotone_sam.
 Theorem C11_mean_monotone : forall c1 c2, Forall2 Qle c1 c2 -> sr_mean c1 <= sr_mean c2.
 Proof. exact sr_mean_le. Qed.
 Print Assumptions C11_mean_monotone.
+
+(* hence the best-states curve is non-increasing: with candidates = all reveal sets of size <= max_steps (the enumeration
+   of C11_sequences) and value = gap column over the sampled games, the recorded per-size optimum of size k+1 is at most
+   that of size k, whenever the value depends on the set only and one more coalition never increases the mean gap *)
+Theorem C11_best_curve_nonincreasing :
+  forall (value : list N -> list Q) (acts : list N), NoDup acts ->
+    (forall s1 s2, (forall x, In x s1 <-> In x s2) -> value s1 = value s2) ->
+    (forall s a, sr_mean (value (s ++ [a])) <= sr_mean (value s)) ->
+    (forall s, ~ sr_mean (value s) == -1) ->
+    forall reps, sr_mean (repeat (-1) reps) == -1 ->
+    forall max_steps k bk bk1, (S k <= max_steps)%nat -> (S k <= length acts)%nat ->
+      nth_error (sr_best_states max_steps reps (sc_cands value acts max_steps)) k = Some bk ->
+      nth_error (sr_best_states max_steps reps (sc_cands value acts max_steps)) (S k) = Some bk1 ->
+      sr_mean (sb_col bk1) <= sr_mean (sb_col bk).
+Proof. exact sr_best_curve_nonincreasing. Qed.
+Print Assumptions C11_best_curve_nonincreasing.
 
 Example C11_nontrivial :
   let v := [0; 1; 1; 3; 1; 2; 4; 9] in
